@@ -3,13 +3,15 @@ CONSTANTS
   CMonths = {1,2}
   CDays = {1,2}
   CHours = {1}
-  CQuanta = {"Y","YM","YMD","YMDH","M","MD","MDH","D","DH","H"}
+  CQuanta = {"YMDH"}
   NSV = {FALSE}
   Variant = "fixed"
   Order = "code"
   MaxT = 2
   MaxS = 1
   MaxClr = 1
+  MaxPlain = 1
+  Vias = {"set","views"}
   Depth = 0
   Gen = FALSE
 INIT Init
